@@ -150,8 +150,13 @@ def reader_cases(scripts, tier, rnd):
                 n = 1500          # byte-sized reads only: keep the call count bounded
             if fk == "codec":
                 target, opts, mt = ft
+                gen_, n_ = ("text" if (i % 2) else "dense"), n
+                if mt and n > 1500:
+                    # several work units: LZMA2Writer cuts independent chunks only when it emits chunks, which needs
+                    # enough poorly compressible data (64 KiB of output per chunk)
+                    gen_, n_ = ("random" if (i % 2) else "mixed"), 200000
                 cases.append({"bin": "vh_part", "mode": "reader", "target": target, "opts": opts, "mt": mt, "reads": reads, "src_chunks": chunks,
-                              "data": {"gen": "text" if (i % 2) else "dense", "len": n, "seed": 3000 + i, "arch": "x86"},
+                              "data": {"gen": gen_, "len": n_, "seed": 3000 + i, "arch": "x86"},
                               "fam": target + "_reader", "si": i})
             elif fk == "bcj":
                 cases.append({"bin": "vh_filter", "kind": "bcj", "arch": ft, "start": 0, "reads": reads, "src_chunks": chunks,
@@ -397,6 +402,12 @@ def run(tier, replay=None):
     for need in ("lzma", "lzma2", "xz", "lzip", "lzma2mt", "lzipmt", "delta_writer"):
         if need not in fams_w and not ctx.violations and not ctx.known_hits:
             raise ToolError(f"vacuous replay: no passing writer run for {need}")
+    # the MT readers must have handed out several work units / members in runs that contain a zero-length read
+    for fam in ("lzma2mt_reader", "lzipmt_reader"):
+        multi = [r.get("units") or 0 for c, r in zip(rc, rres) if c["fam"] == fam and 0 in c["reads"]]
+        ctx.cov[fam + "_max_units_with_zero_read"] = max(multi) if multi else 0
+        if (not multi or max(multi) < 2) and not ctx.violations:
+            raise ToolError(f"vacuous replay: no {fam} run with a zero-length read saw more than one work unit ({multi[:5]})")
     for need in ("lzma_reader", "lzma2_reader", "lzip_reader", "bcj_reader", "delta_reader", "bcj2_reader", "lzma2mt_reader", "lzipmt_reader"):
         if need not in fams_r and not ctx.violations:
             raise ToolError(f"vacuous replay: no passing reader run for {need}")
